@@ -730,11 +730,13 @@ def c01_5(c: Ctx) -> None:
     g = c.cfg(u)
     inv = [(x, call) for x, call in handler_invocations(c) if x.key == u.key]
     c.floor(len(inv), 2, 'handler invocations in execute_handler (async via create_task, sync direct)')
-    started_updates = [n for n in g.live_nodes() if any(call_name(cl) == 'event_result_update' and U(q.kw(cl, 'status')) == "'started'" for cl in q.node_calls(n))]
+    # (marking the result 'started': through the event, or directly on the record process_event pre-registered)
+    started_updates = [n for n in g.live_nodes() if any(call_name(cl) in ('event_result_update', 'update') and q.kw(cl, 'status') is not None and U(q.kw(cl, 'status')) == "'started'" for cl in q.node_calls(n))]
     # the already-started guard, decided by evaluating the function's prefix (everything before the statement that marks the result 'started') over the states the handler's result
     # record can be in: it must raise for a record that has started (started / completed / error) and fall through for no record or a pending one
     body = [st_ for st_ in u.node.body if not (isinstance(st_, ast.Expr) and isinstance(st_.value, ast.Constant))]
-    upd_idx = next((i for i, st_ in enumerate(body) if any(isinstance(x, ast.Call) and call_name(x) == 'event_result_update' and U(q.kw(x, 'status')) == "'started'" for x in ast.walk(st_))), None)
+    upd_idx = next((i for i, st_ in enumerate(body) if any(isinstance(x, ast.Call) and call_name(x) in ('event_result_update', 'update') and q.kw(x, 'status') is not None and U(q.kw(x, 'status')) == "'started'"
+                                                            for x in ast.walk(st_))), None)
     guard_ok = False
     if upd_idx is not None:
         eps = u.params()
